@@ -62,6 +62,92 @@ fn decorate(positions: &[f32], pattern: usize) -> Vec<Kf> {
         .collect()
 }
 
+
+/// Wide family: the 2^j+1-keyframe timelines of common.rs inserted in structured non-identity orders
+/// (reversed, rotated by one third, even-then-odd, bit-reversed, two adjacent swapped, blocks of 7 reversed)
+/// against the ascending insertion; every keyframe position and segment midpoint. Sorting shortcuts that only
+/// hold for short or nearly sorted lists show up here.
+fn wide_pass(thorough: bool, acc: &mut Acc) -> Vec<u32> {
+    let js: Vec<u32> = if thorough { vec![3, 4, 5, 6, 7, 8, 9, 10, 12, 16] } else { vec![5, 8, 12] };
+    let init = P::sentinel();
+    let vs = vstar();
+    let items: Vec<(u32, u8, usize)> = js.iter().flat_map(|&j| (0..2u8).flat_map(move |p| (0..2usize).map(move |ti| (j, p, ti)))).collect();
+    let r = par_fold(
+        items.len(),
+        Acc::default,
+        |i, acc| {
+            let (j, pattern, ti) = items[i];
+            let th = wide_timings()[ti];
+            let base_spec = wide_spec(j, pattern, th);
+            let n = base_spec.kfs.len();
+            let base = base_spec.build();
+            let mut base_s = base.clone();
+            base_s.start_with(&vs);
+            let times: Vec<f32> = wide_positions(j).flat_map(|q| wide_times(&th, q)).collect();
+            let want: Vec<[u64; 5]> = times.iter().map(|&t| eval_real(&base, t, &init).bits()).collect();
+            let want_s: Vec<[u64; 5]> = times.iter().map(|&t| eval_real(&base_s, t, &init).bits()).collect();
+            let bm = meta(&base);
+            acc.timelines += 1;
+            let bits = usize::BITS - (n - 1).leading_zeros();
+            let orders: Vec<(&str, Vec<usize>)> = vec![
+                ("reversed", (0..n).rev().collect()),
+                ("rotated", (0..n).map(|k| (k + n / 3) % n).collect()),
+                ("even-then-odd", (0..n).step_by(2).chain((1..n).step_by(2)).collect()),
+                ("bit-reversed", {
+                    let mut v: Vec<usize> = (0..n - 1).map(|k| k.reverse_bits() >> (usize::BITS - bits + 1)).collect();
+                    v.push(n - 1);
+                    v
+                }),
+                ("one-adjacent-swap", {
+                    let mut v: Vec<usize> = (0..n).collect();
+                    v.swap(n / 2, n / 2 + 1);
+                    v
+                }),
+                ("blocks-of-7-reversed", (0..n).map(|k| { let b = k / 7 * 7; let e = (b + 7).min(n); b + (e - 1 - k) }).collect()),
+            ];
+            for (oi, (oname, order)) in orders.iter().enumerate() {
+                let mut seen = vec![false; n];
+                for &k in order {
+                    seen[k] = true;
+                }
+                assert!(seen.iter().all(|&b| b), "not a permutation: {oname}");
+                acc.perms_differing_order += 1;
+                let spec = TlSpec { kfs: order.iter().map(|&k| base_spec.kfs[k].clone()).collect(), ..base_spec.clone() };
+                let tl = spec.build();
+                let mut tls = tl.clone();
+                tls.start_with(&vs);
+                acc.timelines += 1;
+                let rank = (1u64 << 60) | (j as u64) << 48 | (oi as u64) << 24 | i as u64;
+                if meta(&tl) != bm {
+                    acc.sink.add("metadata-differs", rank, || (format!("metadata depends on insertion order ({oname}, {n} keyframes)"), json!({"timeline": spec.to_json()})));
+                }
+                for (gi, &t) in times.iter().enumerate() {
+                    acc.evals += 2;
+                    if try_eval_real(&tl, t, &init).map(|g| g.bits()) != Some(want[gi]) {
+                        acc.sink.add("values-differ", rank, || (format!("t={t}: {n} keyframes inserted in {oname} order give {:?}, ascending build gives {:?}", try_eval_real(&tl, t, &init), eval_real(&base, t, &init)), case_json(&spec, None, t, &init)));
+                        break;
+                    }
+                    if try_eval_real(&tls, t, &init).map(|g| g.bits()) != Some(want_s[gi]) {
+                        acc.sink.add("values-differ-after-start_with", rank, || (format!("t={t}: {n} keyframes inserted in {oname} order, after start_with, differ from the ascending build"), case_json(&spec, Some(&vs), t, &init)));
+                        break;
+                    }
+                }
+            }
+        },
+        |a, b| {
+            a.sink.merge(b.sink);
+            a.timelines += b.timelines;
+            a.evals += b.evals;
+            a.perms_differing_order += b.perms_differing_order;
+        },
+    );
+    acc.sink.merge(r.sink);
+    acc.timelines += r.timelines;
+    acc.evals += r.evals;
+    acc.perms_differing_order += r.perms_differing_order;
+    js
+}
+
 pub fn run(run: Run) -> ! {
     let nmax = if run.is_thorough() { 8 } else { 6 };
     let npat = if run.is_thorough() { 12 } else { 6 };
@@ -155,13 +241,16 @@ pub fn run(run: Run) -> ! {
             }
         },
     );
+    let mut acc = acc;
+    let wide_js = wide_pass(run.is_thorough(), &mut acc);
     let mut cov = Map::new();
+    cov.insert("wide_family_keyframe_counts".into(), json!(wide_js.iter().map(|j| (1u64 << j) + 1).collect::<Vec<_>>()));
     cov.insert("states".into(), json!(acc.timelines));
     cov.insert("transitions".into(), json!(acc.evals));
     cov.insert("traces_validated_against_impl".into(), json!(acc.evals));
     cov.insert("evaluations".into(), json!(acc.evals));
     cov.insert("distinct_nontrivial".into(), json!(acc.perms_differing_order));
-    cov.insert("rule".into(), json!(format!("every subset of 1..={nmax} distinct positions from {{0,1/8,..,1}} and from a dense grid {{0,.125,.126,.129,.131,.5,.501,.999,1}} (positions closer than 1%) x {npat} (+{}) content patterns (property subsets, per-keyframe easings) x ALL permutations of the insertion order (timing configuration cycled over the 6 of Theta) x {{plain, start_with}} x time grid; oracle: values bit-identical and metadata identical to the ascending-order build; non-trivial = non-identity permutations checked", (npat / 2).max(2))));
+    cov.insert("rule".into(), json!(format!("every subset of 1..={nmax} distinct positions from {{0,1/8,..,1}} and from a dense grid {{0,.125,.126,.129,.131,.5,.501,.999,1}} (positions closer than 1%) x {npat} (+{}) content patterns (property subsets, per-keyframe easings) x ALL permutations of the insertion order (timing configuration cycled over the 6 of Theta) x {{plain, start_with}} x time grid; plus a WIDE family (2^j+1 keyframes, counts under wide_family_keyframe_counts, two property patterns, two timings) inserted in six structured orders (reversed, rotated, even-then-odd, bit-reversed, one adjacent swap, blocks of 7 reversed) at every keyframe position and segment midpoint; oracle: values bit-identical and metadata identical to the ascending-order build; non-trivial = non-identity permutations checked", (npat / 2).max(2))));
     cov.insert("exhaustive".into(), json!(true));
     cov.insert("distinct_observed_outcomes_capped".into(), json!(acc.outcomes.len()));
     cov.insert("samples".into(), json!(acc.samples));
